@@ -15,6 +15,8 @@ pub enum Tab {
     F10 { first: u32, gia: Vec<u16> },
     /// groups: (startCharCode, endCharCode, startGlyphID)
     F12 { groups: Vec<(u32, u32, u32)> },
+    /// Unicode variation sequences subtable with no selector records (not a character map)
+    F14,
 }
 
 fn arr_u16(v: &Value) -> Vec<u16> {
@@ -30,6 +32,7 @@ impl Tab {
             Tab::F6 { .. } => 6,
             Tab::F10 { .. } => 10,
             Tab::F12 { .. } => 12,
+            Tab::F14 => 14,
         }
     }
 
@@ -92,6 +95,7 @@ impl Tab {
                     })
                     .unwrap_or_default(),
             },
+            14 => Tab::F14,
             _ => panic!("unsupported abstract format {}", fmt),
         }
     }
@@ -109,6 +113,7 @@ impl Tab {
             Tab::F10 { first, gia } => json!({"fmt": 10, "first": first, "gia": gia}),
             Tab::F12 { groups } => json!({"fmt": 12,
                 "groups": groups.iter().map(|g| json!({"s": g.0, "e": g.1, "g": g.2})).collect::<Vec<_>>()}),
+            Tab::F14 => json!({"fmt": 14}),
         }
     }
 
@@ -179,6 +184,10 @@ impl Tab {
                 for g in groups {
                     w.u32(g.0).u32(g.1).u32(g.2);
                 }
+            }
+            Tab::F14 => {
+                // format, length, numVarSelectorRecords
+                w.u16(14).u32(10).u32(0);
             }
         }
         w.done()
@@ -317,6 +326,7 @@ impl Tab {
                     }
                 }
             }
+            Tab::F14 => {}
         }
         out.sort_unstable();
         out.dedup();
@@ -345,6 +355,7 @@ impl Tab {
                     b.extend([g.0 as i64 - 1, g.0 as i64, g.1 as i64, g.1 as i64 + 1]);
                 }
             }
+            Tab::F14 => {}
         }
         let mut out: Vec<u32> = b.into_iter().filter(|x| *x >= 0 && *x <= 0x10FFFF).map(|x| x as u32).collect();
         out.sort_unstable();
